@@ -585,18 +585,19 @@ def _alarm(signum, frame):
 
 
 def bounded(fn, seconds):
-    """fn() under a wall-clock bound (main thread only); raises Hang"""
+    """fn() under a CPU-time bound (main thread only); raises Hang"""
     import signal
     import threading
     if threading.current_thread() is not threading.main_thread():
         return fn()
-    old = signal.signal(signal.SIGALRM, _alarm)
-    signal.setitimer(signal.ITIMER_REAL, seconds)
+    # CPU time of this process, not wall-clock time: a decoder that loops burns CPU, a starved machine does not
+    old = signal.signal(signal.SIGVTALRM, _alarm)
+    signal.setitimer(signal.ITIMER_VIRTUAL, seconds)
     try:
         return fn()
     finally:
-        signal.setitimer(signal.ITIMER_REAL, 0)
-        signal.signal(signal.SIGALRM, old)
+        signal.setitimer(signal.ITIMER_VIRTUAL, 0)
+        signal.signal(signal.SIGVTALRM, old)
 
 
 DEC_BOUND_S = 3.0      # no input of the generators needs more than milliseconds; a decode that runs this long is reported as err:Hang
